@@ -212,6 +212,25 @@ def main(tier):
     for i, real in enumerate(reals):
         if "law" in real and any("timeout" in k for k in real["law"] if k.startswith('{"error"')):
             reals[i] = _law_real((cases[i], texts[i]), timeout=300)
+    # The oracle scripts of Dynamics.tla are bounded per case (orcmax picks in one ScenarioStep / MonitorResume);
+    # a bound that is too small loses behaviours (none at all, or weights summing to less than 1).  Such cases are
+    # model-checked again with a generous bound before anything is concluded from them.
+    def _weight_sum(exps):
+        tot = Fraction(0)
+        for o in exps:
+            w = Fraction(1)
+            for a, b, _alt in o["ws"]:
+                w *= Fraction(a, b)
+            tot += w
+        return tot
+
+    short = [i for i, (_c, _t, exps, _r) in enumerate(rows) if not exps or _weight_sum(exps) != 1]
+    if short:
+        again = [dict(cases[i], orcmax=7) for i in short]
+        rows2 = c12.run_batch(ck, again, need_actions=[], run_real=False)
+        for i, r2 in zip(short, rows2):
+            rows[i] = (cases[i], rows[i][1], r2[2], rows[i][3])
+        ck.cov["cases_rerun_with_larger_oracle_bound"] = len(short)
     for (case, text, exps, _r), real in zip(rows, reals):
         if not exps:
             raise MachineryError("no behaviour of Dynamics.tla for a case")
